@@ -63,9 +63,20 @@ def main():
         nc = C["f"]
         results = {}
 
+        from klongpy.types import KGSym
+
+        def message(text):
+            # The callers run in several threads.  Evaluating f(...) through the one client interpreter from several threads at
+            # once would mix their argument frames (the interpreter is not thread-safe, which is not this property's subject), so
+            # each thread hands the NetworkClient exactly the message that f(...) would build: a function call or a program text.
+            if text.startswith("f(:slow,,"):
+                return ipc.KGRemoteFnCall(KGSym("slow"), [int(text[len("f(:slow,,"):-1])])
+            assert text.startswith('f("') and text.endswith('")')
+            return text[3:-2]
+
         def caller(i, text, want):
             try:
-                results[i] = ("ret", C(text))
+                results[i] = ("ret", nc.call(message(text)))
             except BaseException as e:
                 results[i] = ("raise", type(e).__name__)
         kind, pending = case["kind"], case["pending"]
